@@ -973,7 +973,7 @@ func TestSignatureLeadingZero(t *testing.T) {
 }
 
 // TestRoundSizes: tokens whose sealed form is EXACTLY a round number of bytes - every power of two from 1 KiB to
-// 4 MiB (16 MiB in the thorough tier), the byte before and after, the decimal round numbers - where size limits,
+// 4 MiB (8 MiB in the thorough tier), the byte before and after, the decimal round numbers - where size limits,
 // read buffers and length prefixes have their edges. For each: the address clause, and the token followed by one
 // byte, a newline, a kilobyte or a second copy of itself, through every buffered and streaming decoder and every
 // source type: what is accepted is addressed by the CID that comes back, whatever the size.
@@ -981,7 +981,7 @@ func TestRoundSizes(t *testing.T) {
 	var sizes []int
 	top := 22
 	if h.Thorough() {
-		top = 24
+		top = 23 // 8 MiB; go-ipld-prime's decoders refuse a single item beyond their allocation budget (10 MiB), which is their right
 	}
 	for k := 10; k <= top; k++ {
 		sizes = append(sizes, 1<<k-1, 1<<k, 1<<k+1)
